@@ -1,0 +1,21 @@
+//go:build verif
+// +build verif
+
+package tl
+
+import "reflect"
+
+// VerifRegistry (build tag verif) returns a copy of the constructor registry: every registered
+// crc with its Go type, and the set of crcs registered as enum values. Read-only export for the
+// conformance harness in /verif.
+func VerifRegistry() (objects map[uint32]reflect.Type, enums map[uint32]bool) {
+	objects = make(map[uint32]reflect.Type, len(objectByCrc))
+	for k, v := range objectByCrc {
+		objects[k] = v
+	}
+	enums = make(map[uint32]bool, len(enumCrcs))
+	for k := range enumCrcs {
+		enums[k] = true
+	}
+	return objects, enums
+}
